@@ -50,7 +50,7 @@ static int vp_is_blk(const void *b, int k) { for (unsigned i = 0; i < vp_nblk[k]
 #define VP_LITSTART(p) 0
 #endif
 #define SID_PACK(p, n) ((uint64_t)(n) | ((n) > 0 ? (uint64_t)(p)[0] << 8 : 0) | ((n) > 1 ? (uint64_t)(p)[1] << 24 : 0) | ((n) > 2 ? (uint64_t)(p)[2] << 40 : 0))
-static uint64_t vpl_hash16(const uint16_t *p, uint32_t n) { uint64_t h = 0x1E3779B97F4A7C15ULL ^ n; for (uint32_t i = 0; i < H16(p, n); i++) { if (i >= n) break; h = ((h << 7) | (h >> 57)) ^ p[i]; } return h | 0x8000000000000000ULL; }
+static uint64_t vpl_hash16(const uint16_t *p, uint32_t n) { uint64_t h = 0x1E3779B97F4A7C15ULL ^ n; for (uint32_t i = 0; i < H16(p, n); i++) { if (i >= n) break; h = ((h << 7) | (h >> 57)) ^ p[i]; } return h; /* ids of different kinds (packed / hashed) are never compared: equality checks lengths first */ }
 #define QSBLK(p) ((struct qs*)((char*)(p) - QS_OFF))
 /* ids live in model blocks only (a literal operand is compared unit by unit, bounded by its constant length); `lit` = the content
    is a verbatim copy of literal data, `exact` = sid is valid (== lit) */
